@@ -30,7 +30,11 @@ def snapshot(root):
     return out
 
 
-def script_for(ctx, cache, key, data, dest, target, mode):
+HARNESS_OPS = {"rmtree", "chdir", "sleep", "ping"}
+LINK_BYTES = b"bytes of a file that two owners have"
+
+
+def script_for(ctx, cache, key, data, dest, target, mode, owner=None):
     m = drv.MODES[mode][1]
     sri = ref.sri("sha256", data)
 
@@ -74,7 +78,22 @@ def script_for(ctx, cache, key, data, dest, target, mode):
         R("remove_fully", key=key),
         R("read", key=key),
         R("list"),
-    ]
+    ] + ([
+        # life cycle of a linked file: its owner deletes it; the same bytes then arrive again from another owner, through
+        # an ordinary write, and are removed. Nothing of this may touch (or re-create) anything in the owners' directories
+        R("link_to", key=key + "-l1", target=os.path.join(owner, "old", "data.bin")),
+        R("read", key=key + "-l1"),
+        {"op": "rmtree", "path": os.path.join(owner, "old", "data.bin")},
+        R("read", key=key + "-l1"),
+        R("link_to", key=key + "-l2", target=os.path.join(owner, "new", "data.bin")),
+        R("read", key=key + "-l2"),
+        R("write", key=key + "-l3", data=ctx.data(LINK_BYTES)),
+        R("read", key=key + "-l3"),
+        R("read_hash", sri=ref.sri("sha256", LINK_BYTES)),
+        R("remove_hash", sri=ref.sri("sha256", LINK_BYTES)),
+        R("link_to", key=key + "-l2", target=os.path.join(owner, "new", "data.bin")),
+        R("remove_fully", key=key + "-l2"),
+    ] if owner else [])
 
 
 def split_ops(events):
@@ -151,17 +170,24 @@ def run(ctx):
             for nm in ("copy.tmp", "report.tmp", "archive.tar.tmp", "archive.tmp", "copy.bak", "copy~", ".copy.swp", "hl.tmp"):
                 open(os.path.join(dest, nm), "wb").write(b"neighbour " + nm.encode())
                 neighbours[nm] = b"neighbour " + nm.encode()
-            script = script_for(ctx, cache, key, data, dest, target, mode)
+            owner = os.path.join(base, "owner")
+            for sub in ("old", "new"):
+                os.makedirs(os.path.join(owner, sub))
+                open(os.path.join(owner, sub, "data.bin"), "wb").write(LINK_BYTES)
+                open(os.path.join(owner, sub, "other.txt"), "wb").write(b"unrelated file of this owner")
+            script = script_for(ctx, cache, key, data, dest, target, mode, owner)
             spath = os.path.join(base, "script.jsonl")
             import json
             with open(spath, "w") as f:
                 for q in script:
                     f.write(json.dumps(q) + "\n")
             before = snapshot(decoy)
+            owner_before = snapshot(owner)
             variant = drv.MODES[mode][0]
             res = sysm.run([[build.ensure(variant), "run", spath]], [base], base, timeout=120,
                            env={"TMPDIR": os.path.join(decoy, "tmp"), "HOME": os.path.join(decoy, "home")})
             after = snapshot(decoy)
+            owner_after = snapshot(owner)
             resps = res.responses(0)
             ops = split_ops(res.events)
             if len(ops) != len(script) or len(resps) != len(script):
@@ -170,11 +196,13 @@ def run(ctx):
                 ctx.rm(base)
                 continue
             sris = [ref.sri("sha256", data), ref.sri("sha256", data + b"!"), ref.sri("sha256", data + b"#"),
-                    ref.sri("sha256", b"link target bytes")]
-            al = allowed_paths(cache, [key, key + "-linked"], sris)
+                    ref.sri("sha256", b"link target bytes"), ref.sri("sha256", LINK_BYTES)]
+            al = allowed_paths(cache, [key, key + "-linked", key + "-l1", key + "-l2", key + "-l3"], sris)
             det_base = {"key": key if len(key) < 200 else key[:50] + "...", "mode": mode}
             for q, r, evs in zip(script, resps, ops):
                 op = q["op"]
+                if op in HARNESS_OPS:
+                    continue
                 total_calls += len(evs)
                 ctx.count(f"traced_ops[{op}]")
                 ctx.case(distinct_key=(ki, mode, op, len(ctx.distinct) % 7),
@@ -284,6 +312,19 @@ def run(ctx):
             if before != after:
                 ch = [k for k in set(before) | set(after) if before.get(k) != after.get(k)]
                 ctx.violation(f"script|{mode}|decoy-changed", f"files outside the cache changed: {ch[:4]}", det_base)
+            # (4b) the owners' directories: the harness itself deleted old/data.bin; nothing else may differ, and the
+            # deleted file must not come back
+            want = {k: v for k, v in owner_before.items() if k != "old/data.bin"}
+            got = {k: v for k, v in owner_after.items()}
+            for k in ("old", "."):
+                want.pop(k, None)
+                got.pop(k, None)       # the directory's mtime changed with the harness's own unlink
+            if want != got:
+                ch = sorted(k for k in set(want) | set(got) if want.get(k) != got.get(k))
+                ctx.violation(f"script|{mode}|linked-owner-files-changed",
+                              f"files of a linked file's owner (outside the cache) were created, changed or removed: {ch[:4]}",
+                              dict(det_base, steps=[[mode, q] for q in script[-12:]]))
+            ctx.count("owner_directory_censuses")
             ctx.rm(base)
     # (1b) a cache that holds nothing but index entries, inside otherwise empty parent directories: clean-up code
     # must not climb out of the cache directory
